@@ -245,6 +245,8 @@ type c16SlurpCase struct {
 	Flags []string // output/stream flags used on both sides
 }
 
+const c16SlurpProbe = `[., type, length, (. == []), tojson, del(.[0]), del(.[]), del(.[1:]), (.[0] |= empty), (.[1:] |= .), delpaths([[0]]), delpaths([]), (try setpath([0]; 1) catch "E"), to_entries, add, map(.), (.[0] = 1), (. + [1]), ([] + .), (.[] |= .), [paths], (. - [null]), sort, reverse, unique, (.[:1] = []), first(.[]?, "none"), (. as [$a] | $a), getpath([0]), (.. |= .), tostream, flatten, (.[-1:] | length), index(null), (try implode catch "E"), any, all, min, max, (to_entries | from_entries? // "n"), @json, ([.[]?] == .), (. // "alt"), (if . then 1 else 2 end), (.[0]? // "d"), keys, has(0), (map(select(false)) == .), contains([]), inside([]), (try join(",") catch "E"), transpose?, group_by(.), limit(1; .[]?, 9), (reduce .[] as $x (.; .)), (walk(.) == .)]`
+
 var kC16Slurp = run.NewKind("c16.slurp", func(c *run.Ctx, t c16SlurpCase) *run.Fail {
 	m, err := c16ModelOf(t.In)
 	if err != nil {
@@ -283,6 +285,17 @@ var kC16Slurp = run.NewKind("c16.slurp", func(c *run.Ctx, t c16SlurpCase) *run.F
 	if a.Code != 0 || len(a.Stderr) != 0 || len(b.Stderr) != 0 {
 		return run.Failf("%s on well-formed input: %s; %s: %s", adesc, c16Show(a), bdesc, c16Show(b))
 	}
+	// the slurped array is the same value as [inputs] for every program, not only when printed: a battery of
+	// operations that tell representations of an array apart (deletion, update, slicing, comparison, encoding)
+	a2, a2desc := env.exec(t.In, append(append([]string{}, t.Flags...), "-s", c16SlurpProbe)...)
+	b2, b2desc := env.exec(t.In, append(append([]string{}, t.Flags...), "-n", "[inputs] | "+c16SlurpProbe)...)
+	if c16Broken(c, a2, b2) {
+		return nil
+	}
+	if a2.Code != b2.Code || !bytes.Equal(a2.Stdout, b2.Stdout) || !bytes.Equal(a2.Stderr, b2.Stderr) {
+		return run.Failf("%s: %s\n%s: %s", a2desc, c16Show(a2), b2desc, c16Show(b2))
+	}
+	c.Count("slurp_probe_batteries", 1)
 	if len(want) > 0 {
 		c.Nontrivial(c16Key("slurp", t))
 	}
@@ -815,6 +828,11 @@ var kC16Args = run.NewKind("c16.args", func(c *run.Ctx, t c16ArgsCase) *run.Fail
 		query = strings.Join(append([]string{"$ARGS.positional[]", "$ARGS.named"}, vars...), ", ")
 		want = append(c16Canons(positional), run.Canon(named))
 		want = append(want, c16Canons(varVals)...)
+	case 3:
+		// the bound values behave like the same values written as literals under operations that tell
+		// representations apart (only compared with the literal-binding run below)
+		query = "[" + strings.Join(append([]string{"$ARGS.positional", "$ARGS.named"}, vars...), ", ") + "] | map([type, (try del(.[0]) catch \"E\"), (try (.[0] |= empty) catch \"E\"), (try delpaths([[0]]) catch \"E\"), (try (. + []) catch \"E\"), " +
+			"(try (.[1:] |= .) catch \"E\"), (try to_entries catch \"E\"), (try del(.[]) catch \"E\"), (try (.[] |= .) catch \"E\"), (. == []), (. == {}), length?, (try (.[0] = 1) catch \"E\"), (try setpath([\"a\"]; 1) catch \"E\"), (try ([paths] | length) catch \"E\")])"
 	default:
 		query = "[" + strings.Join(append([]string{"$ARGS.named", "$ARGS.positional"}, vars...), ", ") + "]"
 		want = []string{run.Canon(append([]any{named, positional}, varVals...))}
@@ -857,8 +875,10 @@ var kC16Args = run.NewKind("c16.args", func(c *run.Ctx, t c16ArgsCase) *run.Fail
 	if err != nil {
 		return run.Failf("%s: %v", desc, err)
 	}
-	if diff := c16SameList(got, want); diff != "" {
-		return run.Failf("%s: %s", desc, diff)
+	if t.Variant != 3 {
+		if diff := c16SameList(got, want); diff != "" {
+			return run.Failf("%s: %s", desc, diff)
+		}
 	}
 	// (values, not bytes: a number read by --argjson keeps its spelling, a
 	// number literal of the query language does not)
@@ -1263,7 +1283,7 @@ var c16PosStrings = []string{"", "1", "a", `"bar"`, `{"x":1}`, "with space", "é
 var c16PosDashed = []string{"-c", "--", "--arg", "-n", "--args", "--jsonargs", "-x", "--stream"}
 
 func (g *c16G) argsCase() c16ArgsCase {
-	t := c16ArgsCase{Variant: g.r.IntN(3)}
+	t := c16ArgsCase{Variant: g.r.IntN(4)}
 	// named bindings, names drawn from a small pool so that they collide
 	type item struct {
 		words []string
